@@ -142,8 +142,9 @@ func checkSpecialL2(key string, got float64, mags []float64) (bool, *vk.Failure)
 }
 
 // checkLinf: maximum absolute value; with NaN present either NaN or the
-// maximum over the other elements is accepted (Norm propagates, Distance
-// skips NaN; the documentation says "maximum absolute value").
+// maximum over the other elements is accepted here (the documentation only
+// says "maximum absolute value"); that Distance treats NaN exactly as Norm
+// does is asserted separately (key linf-nan-unlike-norm).
 func checkLinf(key string, got float64, mags []float64) *vk.Failure {
 	m := 0.0
 	for _, a := range mags {
@@ -218,6 +219,13 @@ func checkReduce(c vcase) *vk.Failure {
 			return boundedSum(key+"/bound", got, terms, 2*n)
 		}
 		d := mapF(n, func(i int) float64 { return x[i] - y[i] })
+		if math.IsInf(L, 1) && hasNaN(d) {
+			// "Distance computes the L-norm of s - t. See Norm for special
+			// cases": a NaN difference must be treated as Norm treats it.
+			if nv := floats.Norm(d, L); !vk.SameBits(got, nv) {
+				return vk.Failf(key+"/linf-nan-unlike-norm", "Distance(%v, %v, +Inf) = %v but Norm(s-t, +Inf) = %v", clip(x), clip(y), got, nv)
+			}
+		}
 		return checkNormOf(key, got, d, L)
 	case "floats.Sum", "floats.SumCompensated", "floats.Norm", "floats.LogSumExp", "floats.Prod":
 		if c.Fn == "floats.Prod" {
@@ -326,6 +334,15 @@ func checkReduce(c vcase) *vk.Failure {
 		d := make([]complex128, n)
 		for i := range d {
 			d[i] = csub(zx[i], zy[i])
+		}
+		if math.IsInf(L, 1) {
+			nan := false
+			for _, v := range d {
+				nan = nan || math.IsNaN(cmplx.Abs(v))
+			}
+			if nv := cmplxs.Norm(d, L); nan && math.IsNaN(nv) != math.IsNaN(real(got)) {
+				return vk.Failf(key+"/linf-nan-unlike-norm", "Distance(s, t, +Inf) = %v but Norm(s-t, +Inf) = %v (a difference has a NaN modulus)", real(got), nv)
+			}
 		}
 		return checkCNormOf(key, real(got), d, L)
 	case "cmplxs.Sum", "cmplxs.Norm", "cmplxs.Prod":
